@@ -961,8 +961,9 @@ def random_history(eng, rng, n_ops, weights=None, invalid_rate=0.15, stale_rate=
 
 # ---------------------------------------------------------------------------
 # shrinking: greedy removal of operations while the same (monitor, kind) report persists
-def replay_ops(spec, ops, workdir, name='replay', **engine_kw):
+def replay_ops(spec, ops, workdir, name='replay', stop_on_taint=None, **engine_kw):
     eng = Engine(spec, workdir, name=name, **engine_kw)
+    if stop_on_taint is not None: eng.stop_on_taint = stop_on_taint
     try:
         run_history(eng, ops)
     except Exception as e:
@@ -972,11 +973,13 @@ def replay_ops(spec, ops, workdir, name='replay', **engine_kw):
     return eng
 
 
-def shrink(spec, ops, key, workdir, budget=150, **engine_kw):
-    """key = (monitor, kind). Returns a locally minimal op list still producing that report."""
+def shrink(spec, ops, key, workdir, budget=150, mech=None, **engine_kw):
+    """key = (monitor, kind) [+ mech: the report's detail['mechanism'] must stay the same].
+    Returns a locally minimal op list still producing that report."""
     def bad(cand):
         eng = replay_ops(spec, cand, workdir, name='shrink', **engine_kw)
-        return any((r.monitor, r.kind) == key for r in eng.reports)
+        return any((r.monitor, r.kind) == key and (mech is None or (isinstance(r.detail, dict) and r.detail.get('mechanism') == mech))
+                   for r in eng.reports)
     cur = list(ops)
     if not bad(cur): return cur
     n = 2
